@@ -77,6 +77,23 @@ def suite_numpysem(seed, tier):
         old, new = rng.choice([("8", "08"), ("1", ""), ("in", "x"), ("88", "8"), ("", "z")]), None
         add("str_replace", f"String.eqb (str_replace {cstr(s)} {cstr(old[0])} {cstr(old[1])}) "
             f"{cstr(s.replace(old[0], old[1]) if old[0] else s)}", {"s": s, "old": old[0], "new": old[1]})
+        # np.min_scalar_type / min_safe_uint (Model/Base.np_min_scalar_type)
+        from bblean.utils import min_safe_uint
+        m = rng.choice(edge + [2 ** 64, 2 ** 70, rng.randrange(2 ** 66)])
+        try:
+            wbits = np.dtype(min_safe_uint(m)).itemsize * 8
+            expw = f"(Some {W[wbits]})"
+        except ValueError:
+            expw = "None"
+        add("min_scalar_type", f"(match np_min_scalar_type {cz(m)}, {expw} with Some a, Some b => "
+            f"wbits a =? wbits b | None, None => true | _, _ => false end)", {"n": m})
+        # uint64 -> float64 (Model/Base.Z2f, round to nearest even incl. values above 2^63)
+        zz = rng.choice(edge + [2 ** 53 + 3, 2 ** 54 + 2, 2 ** 63 + 1025, 2 ** 64 - 1025, rng.randrange(2 ** 64),
+                                (rng.randrange(2 ** 11) << 53) | rng.choice([0, 1, 2 ** 10, 2 ** 10 + 1, 2 ** 11 - 1])])
+        zz %= 2 ** 64
+        add("Z2f", f"feq_bits (Z2f {cz(zz)}) {cfloat(float(np.uint64(zz)))}", {"z": zz})
+        sz = rng.choice([-1, -2 ** 31, -(2 ** 53) - 1, 5, -rng.randrange(2 ** 62)])
+        add("Zs2f", f"feq_bits (Zs2f {cz(sz)}) {cfloat(float(np.int64(sz)))}", {"z": sz})
         # glob with at most one star
         pat = rng.choice(["round-*.npy", "round-*.pkl", "*.pkl.tmp", "round-1-bufs*.npy", "round-12-idxs*.pkl",
                           "clusters.pkl", "ab*ba", "*", "a*"])
